@@ -20,7 +20,7 @@ RULE = (
     "non-trivial = repeated single-agent measurements / unequal chains / >=2 samples present"
 )
 ASSUMPTIONS = ["correlation cases whose centred prediction row is identically zero (0/0 diagonal) are detected and skipped"]
-REQUIRED = {"evaluation_cases": {"quick": 300, "thorough": 8000}, "single_effect_cases": {"quick": 300, "thorough": 8000}, "synergy_cases": {"quick": 300, "thorough": 8000}, "correlation_cases": {"quick": 60, "thorough": 1500}, "combinatoric_space_cases": {"quick": 100, "thorough": 2500}}
+REQUIRED = {"evaluation_cases": {"quick": 300, "thorough": 8000}, "single_effect_cases": {"quick": 300, "thorough": 8000}, "single_effect_cases_with_sparse_ids": {"quick": 80, "thorough": 2000}, "synergy_cases": {"quick": 300, "thorough": 8000}, "correlation_cases": {"quick": 60, "thorough": 1500}, "combinatoric_space_cases": {"quick": 100, "thorough": 2500}}
 N_CASES = {"quick": 1920, "thorough": 24000}
 
 
@@ -131,6 +131,13 @@ def run_shard(rec, tier, seed, shard, nshards):
             n = int(rng.integers(1, 25))
             nS, nT = int(rng.integers(1, 4)), int(rng.integers(1, 5))
             sids, tids = gen_ids(rng, arity, n, nS, nT)
+            if rng.random() < 0.35:
+                # id arrays of a view: the ids that occur are neither contiguous nor small (a plate of a big screen)
+                tmap = np.sort(rng.choice(np.arange(0, 60), size=nT, replace=False))
+                smap = np.sort(rng.choice(np.arange(0, 40), size=nS, replace=False))
+                tids = np.where(tids == -1, -1, tmap[np.clip(tids, 0, nT - 1)])
+                sids = smap[sids]
+                rec.count("single_effect_cases_with_sparse_ids")
             ob = rng.random(n)
             if rng.random() < 0.3:
                 for i in range(n):
